@@ -3,6 +3,8 @@ from __future__ import annotations
 
 import z3
 
+from symx.api import Raised
+
 def _q(f):
     n, d = float(f).as_integer_ratio()
     return z3.Q(n, d)
@@ -52,9 +54,17 @@ def consecutive(L, R):
     return z3.And(c) if c else z3.BoolVal(True)
 
 
+def _edges(E, b):
+    """numpy-style edges of one binning (a second, separately cached view of its bins); refused for gapped bins."""
+    r = E.attempt(lambda: b.numpy_bins)
+    return r if isinstance(r, Raised) else r.tolist()
+
+
 def snap1d(E, h, stats=False):
     """Observable state of a 1D histogram (same code in both worlds)."""
     d = {
+        "geom": "1d",
+        "edges": _edges(E, h.binning),
         "freq": h.frequencies.tolist(),
         "err2": h.errors2.tolist(),
         "missed": h._missed.tolist(),
@@ -77,6 +87,8 @@ def snap1d(E, h, stats=False):
 
 def snapnd(E, h):
     return {
+        "geom": "nd" if h.ndim > 1 else "1d",
+        "edges": [_edges(E, b) for b in h._binnings] if h.ndim > 1 else _edges(E, h._binnings[0]),
         "freq": h.frequencies.tolist(),
         "err2": h.errors2.tolist(),
         "missed": h.missed,
